@@ -23,7 +23,8 @@ class ScopeProgram:
         self.fresh = {u: ["%s_%d_z" % (u.lower(), i) for i in range(k)] for u, (k, _f) in self.units.items()}
         body = ["echo(early({M0}));", "echo(early({M1}) + {M0});", "{ SG<P> gq = new SG<P>(); echo(gq.get()); }", "echo(SN.get());", "{M2}.setn({M0} + 1);", "echo({M0}); echo({M1});", "echo({M2}.addt({M1}));", "echo(helper({M2}, {M0}));",
                 "echo({M0} + {M1});", "echo({M2}.viaThis({M1}));", "{M0} = {M0} + 1;", "echo({M2}.n); echo({M2}.t);",
-                "{ P q = new P({M1}, {M0}); echo(q.addt(1)); }"]
+                "{ P q = new P({M1}, {M0}); echo(q.addt(1)); }", "{ P dq = new P({M1}, {M0}); destroy dq; echo({M0}); }",
+                "{M2} = new P({M0}, {M1}); echo({M2}.n);", "{ P rq = new P({M0}, 2); rq = new P(3, {M1}); echo(rq.t); }"]
         r.shuffle(body)
         self.body = body[:r.randrange(4, len(body) + 1)] + ["echo({M0}); echo({M1}); echo({M2}.n); echo({M2}.t);"]
 
@@ -41,6 +42,7 @@ class ScopeProgram:
             "    public function setn(int {B0}) -> void { int {B1} = {B0} + 1; n = {B1}; }",
             "    public function addt(int {C0}) -> int { t = t + {C0}; return t + n; }",
             "    public function viaThis(int {D0}) -> int { int {D1} = {D0} * 3; this.n = this.n + {D1}; return this.n; }",
+            "    public destructor() -> void { echo(n * 1000 + t); }",
             "}",
             "class SG<T> { public static int k = %d; public static int w = k * 2 + 1; public static int v = w + k; public constructor() -> SG<T> = default; public function get() -> int { return w * 100 + v; } }" % c[4],
             "class SN { public static int x = %d; public static int k = x + 5; public constructor() -> SN = default; public static function get() -> int { return k * 3 + x; } }" % c[5],
